@@ -142,10 +142,13 @@ func suiteDiffReport(c *Ctx) error {
 		oldSrc, newSrc := oldP.Render(nil, nil, 0), newP.Render(nil, nil, 0)
 		// same-shape renames
 		nSame := 2 + rr.Intn(2)
+		if pi == 3 {
+			nSame = 20 // more same-shape renames than any per-function candidate limit one might think of
+		}
 		for k := 0; k < nSame; k++ {
-			oldSrc += shapeFn(fmt.Sprintf("Shape%c", 'A'+k), k)
-			newSrc += shapeFn(fmt.Sprintf("Form%c", 'X'+k), k)
-			plan = append(plan, plannedFn{fmt.Sprintf("Shape%c", 'A'+k), fmt.Sprintf("Form%c", 'X'+k), "renamed-sameshape"})
+			oldSrc += shapeFn(fmt.Sprintf("Shape%02d", k), k)
+			newSrc += shapeFn(fmt.Sprintf("Form%02d", k), k)
+			plan = append(plan, plannedFn{fmt.Sprintf("Shape%02d", k), fmt.Sprintf("Form%02d", k), "renamed-sameshape"})
 		}
 		// renames among functions of ONE shape with DIFFERENT bodies (small constants, kept by the policy):
 		// every candidate pair scores 1.0, only the fingerprint tells which new function is which old one;
@@ -168,6 +171,12 @@ func suiteDiffReport(c *Ctx) error {
 			newSrc = strings.Replace(newSrc, "func AdjustZ(", "//line grammar.y:40\nfunc AdjustZ(", 1)
 			c.Count("pairs_with_line_directives")
 		}
+		// two functions whose names are different identifiers for the compiler but look alike (K / KELVIN SIGN,
+		// A / fullwidth A): both exist in both files, unchanged
+		lookalike := "func Kill(x int) int { return x + 1 }\n\nfunc \u212aill(x int) int { return x - 1 }\n\nfunc Aim(x int) int { return x * 2 }\n\nfunc \uff21im(x int) int { return x * 3 }\n\n"
+		oldSrc += lookalike
+		newSrc += lookalike
+		plan = append(plan, plannedFn{"Kill", "Kill", "kept"}, plannedFn{"\u212aill", "\u212aill", "kept"}, plannedFn{"Aim", "Aim", "kept"}, plannedFn{"\uff21im", "\uff21im", "kept"})
 		// function literals in package-level variable initialisers (closures of the synthetic init)
 		{
 			k := 3 + rr.Intn(5)
